@@ -142,6 +142,23 @@ def check_same_object(acc):
                 lib = Library(blocks)
                 acc.count("same_object_libraries")
                 check_lib(("same-object",) + names, spec, acc, route, lib=lib, case_extra={"same_object": list(names)})
+            # ... and the very same Field object held by several entries (a library built in code: a common 'year' or
+            # 'publisher' field shared by all entries of a proceedings volume): written like entries holding equal fields
+            shared = Field("year", "2020")
+            pub = Field("publisher", "{P}")
+            mk = lambda sh: Library([Entry("inproceedings", f"p{i}", [Field("title", f"{{T{i}}}")] + ([shared, pub] if sh else [Field("year", "2020"), Field("publisher", "{P}")])) for i in range(3)])
+            try:
+                kw = {"unparse_stack": []} if route == "verbatim" else {}
+                lib_s = mk(True)
+                a1 = bibtexparser.write_string(lib_s, bibtex_format=mkformat(spec), **kw)
+                a2 = bibtexparser.write_string(lib_s, bibtex_format=mkformat(spec), **kw)
+                b = bibtexparser.write_string(mk(False), bibtex_format=mkformat(spec), **kw)
+                acc.trace(3)
+                acc.case(nontrivial_key=("shared-field", spec, route))
+                if a1 != b or a2 != b:
+                    acc.violation({"oracle": "shared_field_object_written_like_equal_fields", "write": 1 if a1 != b else 2}, {"case": {"same_object": ["a Field object shared by three entries"], "format": list(spec), "route": route}, "observed": a1 if a1 != b else a2, "expected": b})
+            except Exception as ex:
+                acc.exception(ex, {"same_object": ["a Field object shared by three entries"], "format": list(spec), "route": route}, "write_string")
 
 
 EDIT_SPECS = [
